@@ -897,7 +897,9 @@ def scenarios(prop, count, seed):
         n = sc["cfg"]["n"]
         hrn["prep"] = rng.choice([0, 0, 0, 1, 2, 3, 3, 4, 4])
         hrn["emptymsg"] = rng.random() < 0.3
-        hrn["rterr"] = rng.random() < 0.3
+        hrn["rterr"] = rng.choice([False, False, False, False, True, True, "state", "lookup", "timeout"])
+        hrn["earlycoro"] = rng.random() < 0.15  # the coroutine object of the run is created before the edges
+        hrn["enumwin"] = rng.random() < 0.2     # window sizes that are members of an IntEnum
         hrn["lateattr"] = rng.random() < 0.2
         hrn["awaitable"] = rng.choice([0, 0, 0, 0, 0, 0, 1, 1, 2, 2])
         hrn["baseexc"] = rng.random() < 0.2     # job exceptions that do not derive from Exception
